@@ -3,7 +3,8 @@ import os, re, subprocess, itertools, json, difflib
 from .. import engine, macrocheck as mc
 from ..scn import Rng
 
-CLASSES = ['own', 'ref', 'refref', 'mut', 'imp', 'slice', 'mutdyn']
+CLASSES = ['own', 'ref', 'refref', 'mut', 'imp', 'slice', 'mutdyn', 'impl']
+GENERIC_CLASSES = ['gt', 'gu']     # substituted for some `own` parameters below (they need the trait / method to declare T / U)
 RECVS = ['ref', 'mut', 'own', 'rc', 'arc', 'pin', 'tref', 'tmut']
 SHAPES = os.path.join(engine.HARNESS, 'target', 'debug', 'shapes')
 
@@ -40,6 +41,14 @@ def shape_family(tier, seed):
                         methods.append(mc.Method(f"m{k}", recv, params, is_async=(flavour == 'async'), rpit=(flavour == 'rpit'), default=default, unmock=unmock))
                         k += 1
     methods = rng.shuffle(methods)
+    # generic methods: every 6th method gets a method-level type parameter in place of an owned parameter, every 5th a
+    # parameter of the trait's type parameter (which makes its whole trait generic)
+    for j, m in enumerate(methods):
+        owned = [i for i, c in enumerate(m.params) if c == 'own']
+        if owned and j % 3 == 0:
+            m.params[owned[0]] = 'gu'; m.mgen = True
+        if len(owned) > (1 if j % 3 == 0 else 0) and j % 5 == 0:
+            m.params[owned[-1]] = 'gt'
     # provided functions without a receiver are skipped by the macro but still occupy an index
     nstat = len(methods) // 10
     for j in range(nstat):
